@@ -37,7 +37,8 @@ assumptions("C12", [
     "1 + M q met between source and target must be >= 1e-3 (cases below are discarded and counted)",
     "generic diagrams are built with HaighDiagram.from_dict: any tiling of (-inf, 1) plus optionally (1, inf) (or (1, b), (b, inf) - class "
     "split_R_gt_1), in the documented row order ((1, inf) first) or rotated (class rotated_order); diagrams that leave part of the plane "
-    "uncovered are used only with cycles and targets inside the covered part",
+    "uncovered are used only with cycles and targets inside the covered part; segment borders of generic diagrams are >= 1e-3 apart "
+    "(pyLife orders segments by a rounded function of their mid points; micro-segments of width 1e-200 are not a meaningful diagram)",
     "matrix interface: regular and irregular class grids, class mids represent the cycles (pyLife's convention), -1 <= R_goal < 1",
 ])
 
@@ -154,10 +155,10 @@ def f12a_class(segments, a, m, Rg):
     return A[0] in order and B[0] in order and order.index(A[0]) < order.index(B[0])
 
 
-def f12b_class(segments, a, m, Rg):
-    """F12_b: more than one segment beyond R = 1 and the cycle (R > 1 or exactly R = -inf) or the target lies there."""
-    n = sum(1 for l, r, _ in segments if l >= 1.0)
-    return n >= 2 and ((m + a) <= 0.0 or Rg > 1.0)
+def f12b_class(segments, a=None, m=None, Rg=None):
+    """F12_b: the diagram has more than one segment beyond R = 1.  Every cycle is affected, not only those starting or ending
+    there: a cycle that passes the ray R = -inf on its way is captured by the (b, inf] segment and dragged to R = b."""
+    return sum(1 for l, r, _ in segments if l >= 1.0) >= 2
 
 
 # --------------------------------------------------------------------------- strategies
@@ -380,8 +381,10 @@ def _diagram(draw, allow_partial=True, allow_split=True, allow_rotated=True):
         segs = ref.five_segment_segments(*[p[k] for k in ("M0", "M1", "M2", "M3", "M4", "R12", "R23")])
         return {"kind": kind, "params": p, "segments": segs, "rotated": False}
     nb = draw(st.integers(0, 4))
+    # borders at least 1e-3 apart (rounded to a 1e-3 grid): pyLife orders the segments by a rounded function of their
+    # mid points, micro-segments below the resolution of that arithmetic are outside the domain
     br = sorted(set(draw(st.lists(st.one_of(st.sampled_from([0.0, -1.0, 0.5]), _grid_R_below_1(),
-                                            st.floats(-6.0, 0.97, allow_nan=False)), min_size=nb, max_size=nb))))
+                                            st.integers(-6000, 970).map(lambda i: i / 1000.0)), min_size=nb, max_size=nb))))
     edges = [-INF] + br + [1.0]
     Mst = st.one_of(st.sampled_from([0.0, 0.3]), st.floats(0.0, 0.95, allow_nan=False))
     segs = [(edges[i], edges[i + 1], draw(Mst)) for i in range(len(edges) - 1)]
@@ -390,7 +393,7 @@ def _diagram(draw, allow_partial=True, allow_split=True, allow_rotated=True):
     if tail == "one":
         segs = [(1.0, INF, M4)] + segs
     elif tail == "split":
-        b = draw(st.one_of(_grid_R_above_1(), st.floats(1.05, 20.0, allow_nan=False)))
+        b = draw(st.one_of(_grid_R_above_1(), st.integers(1050, 20000).map(lambda i: i / 1000.0)))
         segs = [(1.0, b, M4), (b, INF, draw(st.one_of(st.just(0.0), st.floats(0.0, 0.6, allow_nan=False))))] + segs
     # other row orders that the validation accepts: rotations of a diagram that covers the whole plane
     rot = draw(st.integers(0, len(segs) - 1)) if (allow_rotated and tail != "none" and draw(st.integers(0, 3)) == 0) else 0
